@@ -357,6 +357,7 @@ def run(chk):
         de = tuple(i for i in range(3) if rnd.random() < 0.3)
         if tries % 7 == 5:
             # multi-block function: producer in the entry block, consumers in the two successor blocks and behind the join
+            g.nview = 3  # no new views below (they would be defined in one successor block only)
             flat = lambda n_: [s_ for s_ in g.block(0, n_) if s_[0] != "view"]
             cases.append(([s_ for s_ in prog if s_[0] == "view"] + [s_ for s_ in prog if s_[0] != "view"][:3], de, (rnd.randrange(2), flat(rnd.randint(1, 2)), flat(rnd.randint(0, 2)), flat(rnd.randint(0, 2)))))
             continue
